@@ -9,7 +9,7 @@ import os
 import re
 
 HERE = os.path.dirname(os.path.dirname(os.path.abspath(__file__)))
-PATH = os.path.join(HERE, "known-findings.txt")
+PATH = os.environ.get("VERIF_KNOWN_FILE") or os.path.join(HERE, "known-findings.txt")
 
 
 def load(path=PATH):
